@@ -34,8 +34,7 @@ Definition stream_run_stateless (c : jcfg) (w : world) (ps : list (N * N)) (merg
                           else through_cursor_run merged forked start cu stop_for_files (j_bundle c)
              end in
       let fend := match r with
-                  | RsOk => if negb (j_stop c =? 0) && ((j_stop c / j_bundle c + 1) * j_bundle c <=? merged_end)
-                            then JStop else JNil
+                  | RsOk => file_end c merged_end
                   | RsResolveErr => JInvalidArg
                   | RsNotImplemented => JOther
                   | RsFuel => JFuel end in
@@ -90,8 +89,7 @@ Definition stream_run_nomem (c : jcfg) (w : world) (ps : list (N * N)) (merged_e
                           else through_cursor_run merged forked start cu stop_for_files (j_bundle c)
              end in
       let fend := match r with
-                  | RsOk => if negb (j_stop c =? 0) && ((j_stop c / j_bundle c + 1) * j_bundle c <=? merged_end)
-                            then JStop else JNil
+                  | RsOk => file_end c merged_end
                   | RsResolveErr => JInvalidArg
                   | RsNotImplemented => JOther
                   | RsFuel => JFuel end in
